@@ -5,7 +5,7 @@ from gen import Gen, mode_line, cfg_line
 from suites import run_suite, parse_snap, esc, exp_silent
 from suites import exp_one_error_no_write as suites_exp_one_error
 
-LEAN_MODULES = ['GoSnaps.Props.C18', 'GoSnaps.Props.Tie.Escape', 'GoSnaps.Props.Tie.Snapshot', 'GoSnaps.Props.Tie.SnapshotIO', 'GoSnaps.Props.Tie.Flows', 'GoSnaps.Props.Tie.Pipeline']
+LEAN_MODULES = ['GoSnaps.Props.C18', 'GoSnaps.Props.Tie.Escape', 'GoSnaps.Props.Tie.Snapshot', 'GoSnaps.Props.Tie.SnapshotIO', 'GoSnaps.Props.Tie.Flows', 'GoSnaps.Props.Tie.Pipeline', 'GoSnaps.Props.Tie.Wrappers']
 
 SPECIAL = [
     'a: 1\n---\nb: 2\n',                                   # multi-document stream
